@@ -310,8 +310,14 @@ package governance
 //@   ensures err != nil ==> voteHas(pvs)[proposalID] == old(voteHas(pvs))[proposalID] && voteOpin(pvs)[proposalID] == old(voteOpin(pvs))[proposalID] && votePow(pvs)[proposalID] == old(votePow(pvs))[proposalID]
 
 // Update: only the opinion of an existing snapshot record changes (the power stays the snapshot power)
+// An opinion is one of the four constants 0..3: the tally indexes a 4-element slice with it (ResultSoFar). Err is the only
+// guard between a decoded vote message and the store (D-18f: it used to accept every value).
+//@ func (VoteOpinion).Err
+//@   modifies nothing
+//@   ensures (result == nil) == (0 <= opinion && opinion <= 3)                                                 // C18.opinion-range
 //@ assume func (*ProposalVoteStore).Update
 //@   requires pvs != nil && vote != nil
+//@   requires 0 <= vote.Opinion && vote.Opinion <= 3                                                            // C18.opinion-range
 //@   modifies voteOpin(pvs)[proposalID], gvCum(pvs)[proposalID], gvOp(pvs)[proposalID], gvPw(pvs)[proposalID], voteSum(pvs)[proposalID], vHas(pvs.store), vVal(pvs.store)
 //@   ensures err == nil ==> voteHas(pvs)[proposalID][str(vote.Validator)]
 //@   ensures err == nil ==> voteOpin(pvs)[proposalID] == old(voteOpin(pvs))[proposalID][str(vote.Validator) := vote.Opinion]
@@ -342,7 +348,10 @@ package governance
 // lastTally(pvs)[id] / lastTallyPass(pvs)[id]: ghost record of the result ResultSoFar last computed for id and of the pass
 // percentage it was computed with (lets handler contracts say "the move made is the one this tally dictates")
 //@ func (*ProposalVoteStore).ResultSoFar
+//@   safety C18
 //@   requires pvs != nil
+// every stored opinion went through Setup (OPIN_UNKNOWN) or Update (precondition C18.opinion-range above)
+//@   assumes forall j int :: 0 <= gvOp(pvs)[proposalID][j] && gvOp(pvs)[proposalID][j] <= 3                    // A-OPINION-RANGE
 //@   modifies lastTally(pvs)[proposalID], lastTallyPass(pvs)[proposalID]
 //@   update lastTally(pvs) := old(lastTally(pvs))[proposalID := result0.Result]
 //@   update lastTallyPass(pvs) := old(lastTallyPass(pvs))[proposalID := passPercent]
